@@ -1,10 +1,14 @@
 /* Harness for component `net` (C13): announcements of network, programme, time and aspect.
    Sliced lines go through vbi_decode() of a real vbi_decoder with ONE event-logging handler;
    vbi_is_cached() probes the Teletext cache.  Speaks the line protocol of lean/Driver/Net.lean.
-   packet.c is #included to reach the static station_lookup() and the decoder's private state. */
+   packet.c is #included to reach the static station_lookup() and the decoder's private state,
+   caption.c to call the static xds_strfu() on exact-size heap arrays (`strfu` op). */
 #include "hutil.h"
 #include <math.h>
 #include "src/packet.c"
+#define default_color_map cc_default_color_map   /* static of the same name in packet.c */
+#include "src/caption.c"
+#undef default_color_map
 
 static vbi_decoder *dec;
 static long long cur_us;            /* mirror of vbi->time in microseconds (for the `rej time` pre-check only) */
@@ -242,6 +246,34 @@ int main(void)
 					for (q = p->name; *q; ++q) printf("%02x", (unsigned char) *q);
 					printf(" %u %u %u %u\n", p->cni1, p->cni2, p->cni3, p->cni4);
 				}
+			}
+		} else if (H_IS(0, "strfu")) {
+			/* xds_strfu() on a destination array of exactly the given size and a source of exactly the given length */
+			int dl = 0, sl = 0, i, fl; uint8_t *d = NULL, *src = NULL;
+			if (h_ntok != 3 || !(d = h_hex(h_tok[1], &dl)) || !(src = h_hex(h_tok[2], &sl))) printf("rej parse\n");
+			else {
+				for (i = 0; i < sl && src[i] <= 0x20; ++i) ;
+				fl = sl - i;                       /* bytes the copy loop stores; one more for the terminator */
+				if (fl + 1 > dl) printf("rej oob\n");
+				else {
+					int neq = xds_strfu((signed char *) d, src, sl);
+					printf("ok %d ", neq != 0); h_puthex(d, dl); printf("\n");
+				}
+			}
+			free(d); free(src);
+		} else if (H_IS(0, "layout")) {
+			if (h_ntok != 1) printf("rej parse\n");
+			else {
+#define MSZ(m) sizeof(((vbi_program_id *) 0)->m)
+				size_t named = MSZ(channel) + MSZ(cni_type) + MSZ(cni) + MSZ(pil) + MSZ(luf) + MSZ(mi) + MSZ(prf) + MSZ(pcs_audio) + MSZ(pty);
+				size_t rest = MSZ(tape_delayed) + MSZ(_reserved2) + MSZ(_reserved3);
+				/* pidfields: members before tape_delayed, each as wide as an int, none overlapping */
+				printf("ok name=%d call=%d xdsbuf=%d pidfields=%d pidpad=%d\n",
+				       (int) sizeof(((vbi_network *) 0)->name), (int) sizeof(((vbi_network *) 0)->call),
+				       (int) sizeof(((xds_sub_packet *) 0)->buffer),
+				       (named == 9 * sizeof(int) && offsetof(vbi_program_id, tape_delayed) == named) ? 9 : -1,
+				       (int) (sizeof(vbi_program_id) - named - rest));
+#undef MSZ
 			}
 		} else printf("rej op\n");
 	}
